@@ -1,6 +1,6 @@
 (* Props/C13.v -- property C13: UAC INVITE: responses map deterministically to early dialogs, sessions, failure *)
 From Coq Require Import List NArith Bool.
-From EZK Require Import Model.Forms9 Proofs.Forms9 Model.Forms8 Proofs.Forms8 Gen.Tables Lib.Bytes Model.C13 Proofs.C13 Model.C13q Proofs.C13q.
+From EZK Require Import Model.Forms10 Proofs.Forms10 Model.Forms9 Proofs.Forms9 Model.Forms8 Proofs.Forms8 Gen.Tables Lib.Bytes Model.C13 Proofs.C13 Model.C13q Proofs.C13q.
 Import ListNotations.
 Open Scope N_scope.
 
@@ -112,3 +112,14 @@ Proof. exact every_other_skips_second. Qed.
 
 Theorem C13_every_other_fewer : forall (A : Type) (l : list A), (2 <= length l)%nat -> (length (terminated_form false l) < length l)%nat.
 Proof. exact every_other_length. Qed.
+
+(* "a 2xx yields an established session" - the same one on either path: whether it gets a session timer depends on its Session-Expires
+   header alone, not on `Supported: timer` (which a peer sending `Require: timer` need not repeat) *)
+Theorem C13_session_timer_guard : session_timer_from_header = true.
+Proof. reflexivity. Qed.
+
+Theorem C13_session_timer_from_header : session_timer_from_header = true -> forall has_se lists_supported, session_has_timer has_se lists_supported = has_se.
+Proof. exact session_timer_here. Qed.
+
+Theorem C13_timer_needs_supported_refuted : session_has_timer_form false true false = false.
+Proof. exact session_timer_needs_supported. Qed.
